@@ -63,9 +63,9 @@ PROPS = {
         'explanation': 'Hoare-style contracts over an RV64 ISA specification on every instruction emitter of axcut2rv64',
     },
     'C09': {
-        'units': ['x86_memory', 'a64_memory', 'rv64_memory', 'x86_code', 'a64_code', 'rv64_code'],
+        'units': ['x86_memory', 'a64_memory', 'rv64_memory', 'x86_code', 'a64_code', 'rv64_code', 'x86_print', 'a64_print'],
         'kill_units': ['x86_memory', 'a64_memory', 'rv64_memory'],
-        'aux': ['native_moves', 'native_heap'],
+        'aux': ['native_moves', 'native_heap', 'native_prints'],
         'level': 'other',
         'claim': 'Local contracts of the memory primitives on all three backends are proved by Verus for all placements and all machine states: share_block_n / erase_block (exact count delta; last reference -> the block is pushed on the deferred list with its children untouched; null pointers skipped), release_block, acquire_block (three exhaustive cases; children of a reused deferred block erased one level), store/load of a field and of a value (slot addresses, integer fields store 0 in the pointer slot, a loaded pointer is shared iff the load is non-destructive), the one-block loops store_values / load_values / store_zeros (right-to-left fold of the single-value transformer with the environment position and field index every call must use; unused fields nulled), the block-linking recursions store_fields / load_fields for objects of any size (composition of the proved transformers block by block, scratch-register evacuation for spilled block pointers, release before read iff consumed) and Memory::store / Memory::load (reference-count dispatch between release and share path). Each contract pins the whole post-state (extensional equality of registers and memory), so the frame is proved too. The statement itself - the four-state partition of all blocks and exact counts at every statement boundary of every execution - is an inductive invariant over program histories and is NOT decided; the proved contracts are the per-operation lemmas such a proof would use.',
         'note': 'Assumed: A-ITE (the two label patterns emitted by skip_if_zero / if_zero_then_else implement if-then-else; stated as axioms over the structured semantics srun) and A-LBL (fresh labels); ISA specs. The global invariant is not under contract (bounded heap audit only).',
@@ -74,9 +74,9 @@ PROPS = {
         'explanation': 'Proved: per-primitive exact state transformers with full frame on x86-64, AArch64, RISC-V (under A-ITE). Not decided: the whole-execution heap invariant.',
     },
     'C10': {
-        'units': ['x86_memory', 'a64_memory', 'rv64_memory', 'x86_code', 'a64_code', 'rv64_code'],
+        'units': ['x86_memory', 'a64_memory', 'rv64_memory', 'x86_code', 'a64_code', 'rv64_code', 'x86_print', 'a64_print'],
         'kill_units': ['x86_memory', 'a64_memory', 'rv64_memory'],
-        'aux': ['native_heap'],
+        'aux': ['native_heap', 'native_prints'],
         'level': 'proof',
         'claim': 'Sentence 1 of the property is the postcondition of acquire_block, proved on all three backends for every machine state: its three cases are exhaustive and exclusive (reusable-list link non-zero / else deferred-list link non-zero / else neither), and only in the third does the frontier register receive an address not already held in the state, namely old frontier + 64 (one block). Every other verified emitter has the frontier register in its frame (erase_block sets it to a block that is already below the frontier). Sentence 2 (space independent of iteration count) is a corollary over histories and is given informally, not counted as an obligation.',
         'note': 'Assumed: A-ITE / A-LBL, ISA specs. The history-level corollary is not machine-checked.',
